@@ -63,7 +63,9 @@ fn c03_case(b: usize, l: usize, form: u8, stop_at: u32, warm: bool, maxd: u8) {
     }
     out::reset();
     unsafe { CLK.stop_at = stop_at; }
-    let n = crate::h_time::any_num();
+    // one-digit numbers: the abstract clock ignores the amount (the deadline is the poll index), and a longer
+    // number would force the global unwinding bound up to str::parse's digit loop
+    let n = crate::h_time::any_num_1digit();
     if form == 0 {
         let d = sym::u8(); sym::assume(d >= 1 && d <= maxd);
         let ds = if d == 1 { "1" } else if d == 2 { "2" } else { "3" };
